@@ -183,21 +183,22 @@ class TMix:
     def _w(s, name):
         OBS.stack.append((name, s.id_number))
 
-    def accept(s, ind, completed=False):
+    def accept(s, ind, *a, **k):
         OBS.ev('Enter', s.id_number, ind.id_number, s.number_of_individuals, capv(s.node_capacity),
                ind.priority_class, tuple(n for n, _ in OBS.stack), cid(ind.customer_class))
         s._w('accept')
         try:
-            return super().accept(ind, completed)
+            return super().accept(ind, *a, **k)
         finally:
             OBS.stack.pop()
 
-    def release(s, ind, next_node, reroute=False):
+    def release(s, ind, next_node, *a, **k):
+        reroute = k.get('reroute', a[0] if a else False)
         OBS.ev('Release', s.id_number, ind.id_number, next_node.id_number, 1 if reroute else 0,
                1 if ind.is_blocked else 0, iid(ind.server), tk(ind.service_start_date), tk(ind.service_end_date))
         s._w('release')
         try:
-            return super().release(ind, next_node, reroute)
+            return super().release(ind, next_node, *a, **k)
         finally:
             OBS.stack.pop()
             OBS.ev('ReleaseDone', s.id_number, ind.id_number)
@@ -358,8 +359,8 @@ class TMix:
         s._rec(ind)
         return r
 
-    def write_interruption_record(s, ind, destination=math.nan):
-        r = super().write_interruption_record(ind, destination)
+    def write_interruption_record(s, ind, *a, **k):
+        r = super().write_interruption_record(ind, *a, **k)
         s._rec(ind)
         return r
 
@@ -368,8 +369,8 @@ class TMix:
         s._rec(ind)
         return r
 
-    def write_baulking_or_rejection_record(s, ind, record_type):
-        r = super().write_baulking_or_rejection_record(ind, record_type)
+    def write_baulking_or_rejection_record(s, ind, *a, **k):
+        r = super().write_baulking_or_rejection_record(ind, *a, **k)
         s._rec(ind)
         return r
 
@@ -410,10 +411,10 @@ class TMix:
         finally:
             OBS.stack.pop()
 
-    def begin_service_if_possible_accept(s, ind):
+    def begin_service_if_possible_accept(s, *a, **k):
         s._w('bsip_accept')
         try:
-            return super().begin_service_if_possible_accept(ind)
+            return super().begin_service_if_possible_accept(*a, **k)
         finally:
             OBS.stack.pop()
 
@@ -472,9 +473,10 @@ class TArr(ciw.ArrivalNode):
 
 
 class TExit(ciw.ExitNode):
-    def accept(s, ind, completed=True):
+    def accept(s, ind, *a, **k):
+        completed = k.get('completed', a[0] if a else True)
         OBS.ev('ExitEnter', ind.id_number, 1 if completed else 0)
-        return super().accept(ind, completed)
+        return super().accept(ind, *a, **k)
 
 
 RTYPES = {'service': 0, 'interrupted service': 1, 'renege': 2, 'baulk': 3, 'rejection': 4}
